@@ -49,8 +49,9 @@ func genDescriptor(t *rapid.T, maxBody int) ref.Descriptor {
 		copy(b[1:4], rapid.StringMatching("[a-z]{3}").Draw(t, "ttml-lang"))
 		return ref.Descriptor{Tag: 0x7F, Body: b}
 	case 4: // Dolby Vision
-		n := rapid.IntRange(4, min(8, maxBody)).Draw(t, "dv-len")
+		n := rapid.IntRange(5, min(8, maxBody)).Draw(t, "dv-len")
 		b := genBytes(t, n, n, "dv")
+		b[0], b[1] = 1, 0 // dv_version_major.minor 1.0, the only version the Dolby Vision descriptor is defined for
 		profile := rapid.IntRange(0, 127).Draw(t, "dv-profile")
 		level := rapid.IntRange(0, 31).Draw(t, "dv-level")
 		num := uint16(profile)<<9 | uint16(level)<<3 | uint16(b[3]&7)
